@@ -40,6 +40,4 @@ def run(ctx):
     # a metric change is one of the histories: the re-encoded leaf (header of the new metric over the entry's own vector at
     # the declared dimension) is what distances are computed from afterwards
     from props import C18
-    import vec_rules
-    C18.r_reencode_value(ctx)
-    vec_rules.trunc_rule(ctx, 'R-TRUNC', only=['prepare_changing_distance'])
+    C18.rules(ctx)
